@@ -2,7 +2,7 @@
    name.  This is what is extracted; the correspondence harness calls these
    and nothing else. *)
 From AK Require Import Base.Prelude Base.Sx Bytes.Text Bytes.FabHeader Bytes.BinFile
-  Reader.Select Reader.BoxRead Reader.Level Plotfile.TextHeader Taste.Taste Reader.ReadSpec Plotfile.Abstract Writers.Colander Writers.ColanderSpec Writers.Combine Writers.CombineSpec Writers.Chef Writers.Chk2plt Writers.ChefToolProofs
+  Reader.Select Reader.BoxRead Reader.Level Plotfile.TextHeader Taste.Taste Reader.ReadSpec Plotfile.Abstract Writers.Colander Writers.ColanderSpec Writers.Combine Writers.CombineSpec Writers.Chef Writers.Chk2plt Writers.ChefToolProofs Writers.FullPipeline
   Array.Paint Mandoline.Plate Mandoline.Slice3D Mandoline.SlicePlot Whip.Whip Pestle.Pestle Point.PointQuery Menu.Menu Paths.Posix.
 
 Definition as_Zs := as_list as_Z.
@@ -450,6 +450,60 @@ Definition e_chef_spec (s : sx) : sx :=
   | _ => bad_request
   end.
 
+(* ---- C14: the SPECIFICATION side of a whole chain (theorem C14_full_chain).  request: (plotfile ops) with
+   op = (0 vars limit) | (1 names1 names2 (0 plotfile)) | (1 names1 names2 (1 k))  [k: the k-th state of the chain,
+   0 = the initial plotfile] | (2 keep names table) -> per hop the image of the state of the composed pure operations
+   (fop_pure), the list ending with () at the first hop where the pure operation is undefined ---- *)
+Inductive chain_op :=
+| COStrain (vars : list bytes) (limit : option Z)
+| COCombine (n1 n2 : list bytes) (other : plotfile + nat)
+| COCook (keep : list Z) (names : list bytes) (tbl : list (nat * list Z * list Z * list bytes)).
+
+Definition dec_chain_op (s : sx) : option chain_op :=
+  match s with
+  | SL [SZ 0; vars; limit] => do v <- as_Bs vars; do l <- as_optZ limit; Some (COStrain v l)
+  | SL [SZ 1; n1; n2; SL [SZ 0; other]] => do n1 <- as_Bs n1; do n2 <- as_Bs n2; do o <- dec_plotfile other; Some (COCombine n1 n2 (inl o))
+  | SL [SZ 1; n1; n2; SL [SZ 1; k]] => do n1 <- as_Bs n1; do n2 <- as_Bs n2; do k <- as_nat k; Some (COCombine n1 n2 (inr k))
+  | SL [SZ 2; keep; names; tbl] =>
+      do keep <- as_Zs keep; do names <- as_Bs names;
+      do tbl <- as_list (fun x => match x with
+                                  | SL [lv; lo; hi; comps] => do lv <- as_nat lv; do lo <- as_Zs lo; do hi <- as_Zs hi; do c <- as_Bs comps; Some (lv, lo, hi, c)
+                                  | _ => None end) tbl;
+      Some (COCook keep names tbl)
+  | _ => None
+  end.
+
+Fixpoint spec_chain (ops : list chain_op) (hist : list plotfile) : list (option pdisk) :=
+  match ops with
+  | [] => []
+  | o :: ops' =>
+      match nth_error hist (length hist - 1) with
+      | None => []
+      | Some cur =>
+          let r := match o with
+                   | COStrain v l => fop_pure (FStrain v l) cur
+                   | COCombine n1 n2 (inl other) => fop_pure (FCombine n1 n2 other) cur
+                   | COCombine n1 n2 (inr k) => match nth_error hist k with
+                                                | Some other => fop_pure (FCombine n1 n2 other) cur
+                                                | None => None
+                                                end
+                   | COCook keep names tbl => fop_pure (FCook (table_recipe tbl) keep names) cur
+                   end in
+          match r with
+          | Some pf' => Some (pf_disk pf') :: spec_chain ops' (hist ++ [pf'])
+          | None => [None]
+          end
+      end
+  end.
+
+Definition e_full_chain (s : sx) : sx :=
+  match s with
+  | SL [a; ops] =>
+      req (do a <- dec_plotfile a; do ops <- as_list dec_chain_op ops; Some (a, ops))
+          (fun '(a, ops) => ok (SL [enc_pdisk (pf_disk a); of_list (Sx.of_opt enc_pdisk) (spec_chain ops [a])]))
+  | _ => bad_request
+  end.
+
 (* ---- C17: chk2plt, one level ----
    request: (boxes state_files state_cells gradp_files gradp_cells ir_files ir_cells do_gradp do_ir floored y_start ns) *)
 Definition e_chk2plt_level (s : sx) : sx :=
@@ -593,6 +647,7 @@ Definition entries : list (string * (sx -> sx)) :=
     ("combine", e_combine);
     ("chef", e_chef);
     ("chef_spec", e_chef_spec);
+    ("full_chain", e_full_chain);
     ("chk2plt_level", e_chk2plt_level);
     ("slice3d", e_slice3d);
     ("menu", e_menu);
